@@ -35,7 +35,10 @@ def sso(*, a=None, e=None, i=None):
     elif a is None and e is not None and i is not None:
         return (-3 / 2 * cst * np.cos(i) / (ω_e * (1 - e ** 2) ** 2)) ** (2 / 7)
     elif e is None and a is not None and i is not None:
-        return np.sqrt(1 - np.sqrt(-3 / 2 * cst * np.cos(i) / (ω_e * a ** (7 / 2))))
+        e2 = 1 - np.sqrt(-3 / 2 * cst * np.cos(i) / (ω_e * a ** (7 / 2)))
+        # The circular solution may come out as -1e-16 due to rounding
+        e2 = np.where((e2 < 0) & (e2 > -1e-12), 0.0, e2)
+        return np.sqrt(e2)
     else:
         raise ValueError("Unknown computation mode")
 
